@@ -271,6 +271,8 @@ def _apply(op, obj, names):
         except Exception:  # noqa: BLE001  (no handler for user classes: the mapper raises, the object is untouched)
             return obj
     if op == "setattr":
+        if not dataclasses.is_dataclass(obj):
+            return None      # a pure legacy class written by the user is not frozen by the library: nothing to attempt
         try:
             setattr(obj, names[0] if names else "x", 12345)
         except Exception:  # noqa: BLE001
